@@ -78,7 +78,7 @@ class C13:
     def shards(self, tier, seed):
         per = 3 if tier == "quick" else 40
         out = [dict(kind="json", index=i, n=per, timeout=500 if tier == "quick" else 3000) for i in range(14)]
-        out += [dict(kind="sqlite", index=50 + i, n=(4 if tier == "quick" else 24), timeout=500 if tier == "quick" else 3000) for i in range(2)]
+        out += [dict(kind="sqlite", index=50 + i, n=(4 if tier == "quick" else 14), timeout=500 if tier == "quick" else 3000) for i in range(2)]
         return out
 
     def floors(self, c, tier):
